@@ -32,6 +32,7 @@ func c16HookVsCleanup(x *mc.Cell, kind string, bound int) {
 			var chid datatransfer.ChannelID
 			reqNum := 70
 			s := sched.New(lockPoints)
+			defer s.Close() // also on a diverged replay: parked library goroutines must be released before the world is torn down
 			switch kind {
 			case "incoming-pull-request":
 				chid = w.Chans[1] // B pulls from us
